@@ -275,6 +275,12 @@ func (t *trace) prepareSIDXStreaming(
 		return nil, sidx.QueryRequest{}, false
 	}
 
+	if tqo.MinVal > tqo.MaxVal {
+		// contradictory conditions on the order key (a > 1 AND a < 1): the key range is empty, and so is the answer
+		// (the secondary index refuses MinKey > MaxKey as an invalid request)
+		return nil, sidx.QueryRequest{}, false
+	}
+
 	sidxName := "default"
 	if tqo.Order.Index != nil {
 		sidxName = tqo.Order.Index.GetMetadata().GetName()
